@@ -133,6 +133,22 @@ func C08(p *core.Program, r *core.Report) {
 
 	// ---- E5: an element enters the document after the text that precedes it (shared with C02-O5)
 	checkFlushBeforeElement(p, r, "E5")
+	// E7: whether an element exists at all for the filters is the documented visibility decision
+	// (shared with C04-V3): a media element the converter takes for hidden never gets the chance
+	// to follow its text
+	checkVisibilityRules(p, r, "E7")
+	// E8: a retained media element is rendered: its HTML view is a serialised tree on every path
+	// (an element that is flagged content but renders as "" is absent from the result)
+	for _, fn := range outputFuncs(p) {
+		for i, o := range outputReturns(p, fn) {
+			if o.typ == "Text" || o.typ == "Tag" || o.textOnly == 1 {
+				continue
+			}
+			ok := o.serializer == "dom.OuterHTML" || o.serializer == "dom.InnerHTML"
+			r.Add("E8", fmt.Sprintf("%s.GenerateOutput HTML rendering #%d is a serialised tree", o.typ, i+1), p.Pos(o.ret.Pos()), ok, "returns "+shortVal(o.value))
+		}
+	}
+	r.Floor("E8", 5)
 	// ---- E6: media are recognised at all: every extractor is offered every candidate node
 	checkExtractorDispatch(p, r, "E6")
 
